@@ -11,7 +11,7 @@ from .. import env, coq, runner
 
 LEVEL = 'other'
 META = dict(
-    text='Proof part: Coq theorems over an executable model of CirqEncoder/ObjectHook (values and JSON documents as finite trees, memo keyed by equality): decode(encode v) = v for every finite value with any sharing, VAL keys dense, one VAL per distinct by-key object, every REF met after its VAL is complete; value equality via canonical forms implies equal hashes (PeriodicValue, @value_equality); Qid._cmp_tuple is a strict total order and the order the qubit classes implement is total, consistent with equality and transitive for the registered class table (checked by vm_compute on every run); measurement keys written into documents as their joined string (Codec/KeyPath.v): parse(str k) = k with every path entry kept apart for keys of any nesting depth, str(parse s) = s for every string, string equality = structural equality on the domain, refuted outside it (a path entry containing the separator). the memo as a Python dict (Codec/MemoHash.v: entries found by hash, then ==) writes the reference document and round-trips for EVERY hash function, however many distinct by-key objects share one hash, whereas a memo keyed by hash(o) alone is refuted (two circuits on the qubits -1/-2 of a line, CPython hash(-1) = hash(-2)); equal mappings (dict equality: ParamResolver, ProductState) have equal hashes when the hash reads the items as a set, an equality that identifies a key written as a name with the key written as a symbol next to a hash of the items as written is refuted, so is a hash that reads the items in insertion order. The model is compared with the implementation on every run (full JSON text of generated nestings of by-key/plain objects, decoder results incl. malformed and legacy documents, VAL/REF key sequences of real FrozenCircuit nestings, qubit comparisons and sorted(), MeasurementKey str/parse_serialized and the key field of MeasurementGate documents on a fixed grid of keys 0..4 scopes deep plus random ones). Exploration part (deciding for the per-class half): every class registered in the resolver caches of cirq, cirq_google, cirq_ionq, cirq_aqt, cirq_pasqal is instantiated from its stored examples and from generated mutants of its constructor arguments, alone and nested in lists/dicts/circuits with shared sub-circuits, and checked for JSON round trip (== and hash), repr evaluation, behaviour (unitary, keys, str), the key OBJECTS carried (path entries, name, order - not only the joined strings), pickle/copy/deepcopy incl. a second process with another hash seed (every value hashed before it is pickled; every qid of the pool, also qids made of string-hashed qids, alone and inside operations/moments/frozen circuits/circuit operations; operations and circuits with their qubits renamed to string-hashed ones); keys 0..4 scopes deep through every entry point that puts a key into a document (measurements, Pauli measurements, conditions, classical controls, scoped and repeated sub-circuits unrolled, data stores) must come back with the same path, order and rescoping behaviour from JSON, pickle and deepcopy; every stored .json/.json_inward reads to the value of its paired .repr; the id()-keyed encoder cache is stressed and audited. HASH COLLISIONS (every seed alike): pools of small FrozenCircuits (qubits at negative and large coordinates, repetitions of either sign) and of generic by-key objects are hashed, every pair of DISTINCT members with EQUAL hash() is put into one document in six positions (list, dict, circuit of sub-circuit operations, repeated, nested one level up) and must read back as itself (model: full text / VAL-REF sequence); every operation of the class stream is also moved onto two different qubits left of the origin and the two sub-circuits written into one document. SPELLINGS: equal values have equal hashes across different ways of writing the same value, with no assumption on which spellings are equal (== symmetric, != its negation, == True => same hash, one set element, found as dict key): a fixed grid of parameter assignments (keys as str or sympy.Symbol, items in both orders, whole numbers as int or float) through 19 entry points (ParamResolver, CircuitOperation param_resolver / with_params, Moment / FrozenCircuit / Circuit / tagged carriers, sweeps, ResultDict, QuantumExecutable), every stored example and explored instance against its respellings (alone and inside Moment / FrozenCircuit / CircuitOperation / tagged operation), all pairs of the instances of one class; JSON / pickle / deepcopy of every respelling.',
+    text='Proof part: Coq theorems over an executable model of CirqEncoder/ObjectHook (values and JSON documents as finite trees, memo keyed by equality): decode(encode v) = v for every finite value with any sharing, VAL keys dense, one VAL per distinct by-key object, every REF met after its VAL is complete; value equality via canonical forms implies equal hashes (PeriodicValue, @value_equality); Qid._cmp_tuple is a strict total order and the order the qubit classes implement is total, consistent with equality and transitive for the registered class table (checked by vm_compute on every run); measurement keys written into documents as their joined string (Codec/KeyPath.v): parse(str k) = k with every path entry kept apart for keys of any nesting depth, str(parse s) = s for every string, string equality = structural equality on the domain, refuted outside it (a path entry containing the separator). the memo as a Python dict (Codec/MemoHash.v: entries found by hash, then ==) writes the reference document and round-trips for EVERY hash function, however many distinct by-key objects share one hash, whereas a memo keyed by hash(o) alone is refuted (two circuits on the qubits -1/-2 of a line, CPython hash(-1) = hash(-2)); equal mappings (dict equality: ParamResolver, ProductState) have equal hashes when the hash reads the items as a set, an equality that identifies a key written as a name with the key written as a symbol next to a hash of the items as written is refuted, so is a hash that reads the items in insertion order. The model is compared with the implementation on every run (full JSON text of generated nestings of by-key/plain objects, decoder results incl. malformed and legacy documents, VAL/REF key sequences of real FrozenCircuit nestings, qubit comparisons and sorted(), MeasurementKey str/parse_serialized and the key field of MeasurementGate documents on a fixed grid of keys 0..4 scopes deep plus random ones). Exploration part (deciding for the per-class half): every class registered in the resolver caches of cirq, cirq_google, cirq_ionq, cirq_aqt, cirq_pasqal is instantiated from its stored examples and from generated mutants of its constructor arguments, alone and nested in lists/dicts/circuits with shared sub-circuits, and checked for JSON round trip (== and hash), repr evaluation, behaviour (unitary, keys, str), the key OBJECTS carried (path entries, name, order - not only the joined strings), pickle/copy/deepcopy incl. a second process with another hash seed (every value hashed before it is pickled; every qid of the pool, also qids made of string-hashed qids, alone and inside operations/moments/frozen circuits/circuit operations; operations and circuits with their qubits renamed to string-hashed ones); keys 0..4 scopes deep through every entry point that puts a key into a document (measurements, Pauli measurements, conditions, classical controls, scoped and repeated sub-circuits unrolled, data stores) must come back with the same path, order and rescoping behaviour from JSON, pickle and deepcopy; every stored .json/.json_inward reads to the value of its paired .repr; the id()-keyed encoder cache is stressed and audited. HASH COLLISIONS (every seed alike): pools of small FrozenCircuits (qubits at negative and large coordinates, repetitions of either sign) and of generic by-key objects are hashed, every pair of DISTINCT members with EQUAL hash() is put into one document in six positions (list, dict, circuit of sub-circuit operations, repeated, nested one level up) and must read back as itself (model: full text / VAL-REF sequence); every operation of the class stream is also moved onto two different qubits left of the origin and the two sub-circuits written into one document. SPELLINGS: equal values have equal hashes across different ways of writing the same value, with no assumption on which spellings are equal (== symmetric, != its negation, == True => same hash, one set element, found as dict key): a fixed grid of parameter assignments (keys as str or sympy.Symbol, items in both orders, whole numbers as int or float) through 19 entry points (ParamResolver, CircuitOperation param_resolver / with_params, Moment / FrozenCircuit / Circuit / tagged carriers, sweeps, ResultDict, QuantumExecutable), every stored example and explored instance against its respellings (alone and inside Moment / FrozenCircuit / CircuitOperation / tagged operation), all pairs of the instances of one class; JSON / pickle / deepcopy of every respelling. COUPLED FIELDS (every seed alike): every field holding a sequence of small positive integers (qid shapes, control shapes, masks) and every omitted constructor argument of that type is set to each member of a fixed grid of shapes (one to four entries; all qubits, single and mixed qudits; products that are / are not a power of two), and the companion fields the constructor ties to it (a count of qubits, sequences of the old length, matrices / vectors of the old width) are re-fitted when the lone change is rejected; Coq model Codec/OptField.v of a field the writer may omit and the reader fills in (round trip for every value <=> every omission is undone by the fill-in; shape next to a matrix width: always written / omitted when equal to the inferred shape round-trip, omitted whenever inferable is refuted by a single qudit of dimension 4; shape next to a count of qubits), tied to MatrixGate / IdentityGate / MeasurementGate / WaitGate documents by vm_compute.',
     note='Not covered by proof: the ~210 per-class _json_dict_/_from_json_dict_ pairs (Python object construction) — explored only, on stored examples and generated mutants; classes with stored examples only, and skipped ones, are listed in the evidence. Trusted: Coq kernel; the Python adapters in vf/checks/c11.py (building Cirq objects from abstract trees, printing Gallina terms); json/pickle/copy of CPython. The model identifies sharing with equality (as CirqEncoder._memo does) and does not model object identity, so the id()-keyed CirqEncoder._cache is explored (audit + stress), not proved. Theorems are closed under the global context.',
     technique='Rocq/Coq proof over an executable Gallina model of the codec core + vm_compute correspondence; typed mutation-based exploration of the registered class population',
 )
@@ -756,7 +756,9 @@ def run(ctx):
                 'what the class stream pickled after hashing, plus (every seed alike) each qid of the pool in 9 containers and renamed-qubit variants. '
                 'COLLISIONS (every seed alike): pairs of distinct by-key objects with equal hash() found by hashing fixed pools (coverage.hash_collisions), each pair in '
                 '5-6 document shapes; non-trivial = >= 2 VAL. SPELLINGS (every seed alike for the grid and the stored examples): families of values written in '
-                'different spellings; non-trivial = at least one pair of the family compares equal (coverage.spellings).')
+                'different spellings; non-trivial = at least one pair of the family compares equal (coverage.spellings). COUPLED FIELDS (every seed alike): each sequence-of-small-integers '
+                'field of the first stored examples of every class through SHAPE_GRID with companion fields re-fitted (coverage.classes.shape_grid, * = re-fitted), and the '
+                'optional_shapes stream: 7 gate entry points x the grid x gate / operation / circuit; non-trivial = a shape that is not all qubits.')
     ctx.assumptions += ['vf/checks/c11.py adapters: abstract tree -> Cirq objects / Gallina terms, JSON text -> Gallina json',
                         'CPython json/pickle/copy, numpy/pandas/sympy equality as used by cirq._compat.proper_eq',
                         'sharing is identified with equality (CirqEncoder._memo is keyed by ==/hash); object identity (the id()-keyed _cache) is explored, not modelled']
@@ -786,6 +788,7 @@ def run(ctx):
     timed('qids', stream_qids, ctx, mods, pop)
     timed('id_cache', stream_id_cache, ctx, mods, pop, ex.instances)
     timed('keys', stream_keys, ctx, mods)
+    timed('optional_shapes', stream_optional_shapes, ctx, mods)
     timed('spellings', stream_spellings, ctx, mods, pop, ex)
     timed('xproc_extras', xproc_extras, ctx, mods, pop, ex)
     timed('xproc', stream_xproc, ctx, mods, ex)
@@ -869,6 +872,20 @@ def replay(ctx, data):
         for how, d in fails:
             print(f'  {how}: {d}'[:500])
         return not fails
+    if k == 'optshape':
+        kind, build = shape_field_entries(cirq, ctx.rng)[data['entry']]
+        sh = tuple(data['shape'])
+        g = build(sh)
+        x = {'gate': g, 'operation': g.on(*cirq.LineQid.for_qid_shape(sh)), 'circuit': cirq.Circuit(g.on(*cirq.LineQid.for_qid_shape(sh)))}[data['form']]
+        print('value:', _short_repr(x))
+        try:
+            text = cirq.to_json(x)
+            y = cirq.read_json(json_text=text)
+        except Exception as e:      # noqa
+            print('read_json(to_json(x)) raises', type(e).__name__, e)
+            return False
+        print('document field qid_shape:', _find_gate_doc(json.loads(text)).get('qid_shape'), '\nshape read back:', cirq.qid_shape(y))
+        return tuple(cirq.qid_shape(y)) == sh and _safe_eq(y, x) and _safe_eq(x, y)
     if k == 'eqhash':
         if 'entry' in data:
             import sympy
@@ -1016,6 +1033,21 @@ MUTATION_DENYLIST = {
 CROSS_QID_DENYLIST = {
     ('_QubitAsQid', 'qubit'): 'only produced by Qid.with_dimension of classes that do not override it; NamedQubit, LineQubit and GridQubit do',
 }
+
+
+# Sequences of small positive integers tried, for every seed alike, in every field that holds such a sequence (qid shapes, control
+# shapes, ...): one and several entries, all 2s, a single qudit, mixed qubit/qudit; products that are / are not a power of two,
+# that coincide / do not coincide with what a companion field (a count, the width of a matrix) would imply by itself.
+SHAPE_GRID = ((2,), (3,), (4,), (5,), (8,), (2, 2), (2, 3), (3, 2), (2, 4), (4, 2), (3, 3), (4, 4),
+              (2, 2, 2), (2, 3, 2), (2, 2, 4), (3, 3, 3), (2, 2, 2, 2))
+
+
+def shape_grid(quick):
+    if quick:
+        return SHAPE_GRID
+    import itertools
+    more = [s for n in (1, 2, 3) for s in itertools.product((1, 2, 3, 4, 5), repeat=n) if Mutator._prod(s) <= (16 if n == 3 else 25)]
+    return tuple(dict.fromkeys(SHAPE_GRID + tuple(more) + ((16,), (2, 8), (8, 2), (4, 2, 2), (2, 2, 2, 2, 2), (3, 2, 2, 2))))
 
 
 class Mutator:
@@ -1223,6 +1255,131 @@ class Mutator:
                 out.append((p.name, c))
         return out
 
+    # -- fields tied to each other by a consistency rule (a shape and the width of a matrix, a shape and a count, ...) ----------
+    @staticmethod
+    def shape_like(v):
+        return (isinstance(v, (list, tuple)) and 0 < len(v) <= 8
+                and all(isinstance(e, int) and not isinstance(e, bool) and 1 <= e <= 16 for e in v))
+
+    @staticmethod
+    def _prod(s):
+        p = 1
+        for e in s:
+            p *= e
+        return p
+
+    def fresh_array(self, ndim_shape, dim):
+        """numeric payload of the given width: a unit vector, a Haar-like unitary, or a stack of unitaries"""
+        import numpy as np
+        rs = np.random.RandomState(self.rng.randrange(2 ** 31))
+
+        def unitary():
+            m = rs.normal(size=(dim, dim)) + 1j * rs.normal(size=(dim, dim))
+            q, r = np.linalg.qr(m)
+            return q * (np.diag(r) / np.abs(np.diag(r)))
+        if len(ndim_shape) == 1:
+            v = rs.normal(size=dim) + 1j * rs.normal(size=dim)
+            return (v / np.linalg.norm(v)).tolist()
+        if len(ndim_shape) == 2:
+            return unitary().tolist()
+        n = self._prod(ndim_shape[:-2])
+        return np.array([unitary() / np.sqrt(n) for _ in range(n)]).reshape(tuple(ndim_shape[:-2]) + (dim, dim)).tolist()
+
+    def refits(self, d, k, old, new):
+        """Companion fields re-fitted to a changed sequence of small integers `new` in field k (its former value `old`, possibly
+        known only from cirq.qid_shape): counts equal to the old length, sequences as long as the old one, numeric arrays whose
+        (trailing) axes are as wide as the old product.  Yields dicts of overrides: none, lengths, widths, both."""
+        import numpy as np
+        lengths, widths = {}, {}
+        if old is not None:
+            lo, do = len(old), self._prod(old)
+            ln, dn = len(new), self._prod(new)
+            for f, v in d.items():
+                if f == k:
+                    continue
+                if isinstance(v, int) and not isinstance(v, bool) and v == lo and ln != lo:
+                    lengths[f] = ln
+                elif isinstance(v, (list, tuple)) and len(v) == lo and ln != lo and v and not self._is_numeric_array(v):
+                    lengths[f] = type(v)((list(v) * ln)[:ln]) if type(v) in (list, tuple) else (list(v) * ln)[:ln]
+                if dn != do and isinstance(v, (list, tuple)) and self._is_numeric_array(v):
+                    a = np.array(v)
+                    if (a.ndim == 1 and a.shape == (do,)) or (a.ndim >= 2 and a.shape[-1] == do and a.shape[-2] == do):
+                        widths[f] = self.fresh_array(a.shape, dn)
+        out = [{}]
+        for extra in (lengths, widths, dict(lengths, **widths)):
+            if extra and extra not in out:
+                out.append(extra)
+        return out
+
+    @staticmethod
+    def _is_numeric_array(v):
+        import numpy as np
+        try:
+            a = np.array(v)
+        except Exception:      # noqa  (ragged)
+            return False
+        return a.dtype.kind in 'iufc' and a.ndim >= 1 and a.size > 0 and (a.ndim >= 2 or a.dtype.kind in 'fc')
+
+    def shape_fields(self, cls, d):
+        """(field, in the document?) for every field holding a sequence of small positive integers, and every constructor argument
+        the document omits whose annotation is a sequence of ints"""
+        out = [(k, True) for k, v in d.items() if self.shape_like(v) and (cls.__name__, k) not in MUTATION_DENYLIST]
+        try:
+            ps = list(inspect.signature(cls.__init__).parameters.values())[1:]
+        except (TypeError, ValueError):
+            ps = []
+        for p in ps:
+            if p.name in d or p.kind in (p.VAR_POSITIONAL, p.VAR_KEYWORD) or p.default is not None:
+                continue
+            if re.search(r'(tuple|Tuple|Sequence|Iterable)\[int\b', str(p.annotation)):
+                out.append((p.name, False))
+        return out
+
+    def shape_mutants(self, x, grid=None):
+        """The same for every seed: each shape-like field of x set to every member of SHAPE_GRID (other lengths, other products,
+        all-qubit shapes, single and mixed qudits whose product is or is not a power of two), companion fields re-fitted when the
+        constructor rejects the lone change.  Returns [(mutant, info)]."""
+        cirq, cls = self.cirq, type(x)
+        try:
+            with time_limit(5):
+                d = self.view(x)
+                if not isinstance(d, dict) or not _safe_eq(self.build(cls, d), x):
+                    return []
+        except Exception:      # noqa
+            return []
+        out, texts = [], set()
+        for k, in_doc in self.shape_fields(cls, d):
+            old = list(d[k]) if in_doc else None
+            if old is None:
+                try:
+                    old = list(cirq.qid_shape(x))
+                except Exception:      # noqa
+                    old = None
+            for new in (grid or SHAPE_GRID):
+                if in_doc and list(new) == list(d[k]):
+                    continue
+                val = type(d[k])(new) if in_doc and type(d[k]) in (list, tuple) else list(new)
+                for extra in self.refits(d, k, old, new):
+                    try:
+                        with time_limit(5), warnings.catch_warnings():
+                            warnings.simplefilter('ignore')
+                            m = self.build(cls, d, dict(extra, **{k: val}))
+                            if type(m) is cls and _safe_eq(m, x) and in_doc and not extra:
+                                m = self.build_ctor(cls, d, {k: val})
+                            if m is None or type(m) is not cls or not _safe_eq(m, m):
+                                continue
+                            # a value whose equality ignores the shape is still another value when its qid shape differs
+                            if _safe_eq(m, x) and cirq.qid_shape(m, None) == cirq.qid_shape(x, None):
+                                continue
+                            key = repr(m) + repr(cirq.qid_shape(m, None))
+                    except Exception:      # noqa   constructor rejected the combination
+                        continue
+                    if key not in texts:
+                        texts.add(key)
+                        out.append((m, dict(field=k, value=repr(tuple(new)), refitted=sorted(extra), ctor_only=not in_doc)))
+                    break
+        return out
+
     def mutants(self, x, keep, tries, depth=0):
         from cirq._compat import proper_eq
         cls = type(x)
@@ -1328,7 +1485,7 @@ class Explorer:
         y = cirq.read_json(json_text=text)
         self._y, self._text = y, text
         if not (_safe_eq(y, x) and _safe_eq(x, y)):
-            return f'read_json(to_json(x)) = {y!r} != x'
+            return f'read_json(to_json(x)) != x{difference_hint(cirq, x, y)}: read back {_short_repr(y)}, x = {_short_repr(x)}'
         self._json_ok = True
         return None
 
@@ -1533,6 +1690,28 @@ class Explorer:
         return fails
 
 
+def difference_hint(cirq, x, y):
+    """where a value and what was read back from its document differ (for the message only; the verdict is ==)"""
+    out = []
+    try:
+        sx, sy = cirq.qid_shape(x, None), cirq.qid_shape(y, None)
+        if sx != sy:
+            out.append(f'cirq.qid_shape {sx} came back as {sy}')
+    except Exception:      # noqa
+        pass
+    try:
+        if type(x) is not type(y):
+            out.append(f'{type(x).__name__} came back as {type(y).__name__}')
+        else:
+            dx, dy = x._json_dict_(), y._json_dict_()
+            ks = [k for k in list(dx) + [k for k in dy if k not in dx] if k not in dy or k not in dx or not _safe_eq(dx[k], dy[k])]
+            if ks:
+                out.append('fields that differ when both are written again: ' + ', '.join(ks[:6]))
+    except Exception:      # noqa
+        pass
+    return (' (' + '; '.join(out) + ')') if out else ''
+
+
 def key_structure(cirq, x):
     """The measurement/control keys a value carries, as structure: per key (path entries, name), listed in the order of the
     key objects themselves (MeasurementKey.__lt__ compares path tuples, then names).  None when the value carries no keys.
@@ -1605,7 +1784,8 @@ def stream_classes(ctx, mods, specs, pop):
     ex = Explorer(ctx, mods, pop)
     custom = custom_instances(mods, pop)
     table = dict(classes=0, factories=0, with_mutants=[], stored_only=[], skipped=[], gaps=[], custom=[],
-                 factories_without_document=[], mutants=0, instances=0)
+                 factories_without_document=[], mutants=0, instances=0, shape_grid={}, shape_grid_mutants=0)
+    grid = shape_grid(quick)
     fail_by_sig = {}
     for e in pop.entries:
         name, label = e['name'], f"{e['spec']}/{e['name']}"
@@ -1640,6 +1820,17 @@ def stream_classes(ctx, mods, specs, pop):
             for m, info in mut.mutants(x, keep=keep - nmut, tries=tries):
                 mutated.append((m, f'{origin}~{info["field"]}', info))
                 nmut += 1
+        # fixed grid (every seed alike): each sequence-of-small-integers field through SHAPE_GRID with its companions re-fitted
+        reached = {}
+        for x, origin in list(insts)[:2 if quick else 3]:
+            if hasattr(x, '_json_dict_'):
+                for m, info in mut.shape_mutants(x, grid):
+                    mutated.append((m, f'{origin}~{info["field"]}={info["value"]}', info))
+                    nmut += 1
+                    reached.setdefault(info['field'], []).append(info['value'] + ('*' if info['refitted'] else ''))
+        if reached:
+            table['shape_grid'][label] = {k: sorted(set(v)) for k, v in reached.items()}
+            table['shape_grid_mutants'] += sum(len(v) for v in reached.values())
         table['mutants'] += nmut
         (table['with_mutants'] if nmut else table['stored_only']).append(label)
         base_fail = set()       # checks that already fail on a stored example of this class: not re-reported for its mutants
@@ -2295,6 +2486,175 @@ def stream_keys(ctx, mods):
         ctx.stale_supporting.append('C11_key_roundtrip_refuted: the witness MeasurementKey(path=("a:b",), name="m") now keeps its path (or is no longer ==)')
     stats['cases'] = len(cases)
     ctx.cov['key_paths'] = dict(stats)
+
+
+# ------------------------------------------------------------------------------------------------ optional shape fields
+CASES_HEADER_OPT = ('From Coq Require Import List Bool NArith.\nFrom VF Require Import Base.Harness Codec.OptField.\n'
+                    'Import ListNotations.\nOpen Scope N_scope.\n')
+
+
+def g_shape(s):
+    return '[' + '; '.join(str(int(d)) for d in s) + ']'
+
+
+def g_opt_shape(o):
+    return 'None' if o is None else f'(Some {g_shape(o)})'
+
+
+def shape_field_entries(cirq, rng):
+    """entry -> (kind, build(shape)).  kind 'width': the companion is a square matrix (Codec/OptField.v part 2);
+    ('count', default): the companion is num_qubits, `default` when the document has none (part 3)."""
+    import numpy as np
+
+    def unitary(dim):
+        rs = np.random.RandomState(rng.randrange(2 ** 31))
+        m = rs.normal(size=(dim, dim)) + 1j * rs.normal(size=(dim, dim))
+        q, r = np.linalg.qr(m)
+        return q * (np.diag(r) / np.abs(np.diag(r)))
+    prod = Mutator._prod
+    return collections.OrderedDict([
+        ('MatrixGate', ('width', lambda sh: cirq.MatrixGate(unitary(prod(sh)), qid_shape=sh))),
+        ('MatrixGate(name=)', ('width', lambda sh: cirq.MatrixGate(unitary(prod(sh)), qid_shape=sh, name='U'))),
+        ('MatrixGate(diagonal)', ('width', lambda sh: cirq.MatrixGate(np.diag([1j ** k for k in range(prod(sh))]), qid_shape=sh))),
+        ('IdentityGate', (('count', None), lambda sh: cirq.IdentityGate(qid_shape=sh))),
+        ('MeasurementGate', (('count', None), lambda sh: cirq.MeasurementGate(key='m', qid_shape=sh))),
+        ('MeasurementGate(invert_mask=)', (('count', None), lambda sh: cirq.MeasurementGate(key='m', qid_shape=sh, invert_mask=(True,)))),
+        ('WaitGate', (('count', 1), lambda sh: cirq.WaitGate(cirq.Duration(nanos=5), qid_shape=sh))),
+    ])
+
+
+def _find_gate_doc(doc):
+    """the dict of the gate inside the document of a gate / an operation / a circuit holding one operation"""
+    if isinstance(doc, dict):
+        if 'gate' in doc and isinstance(doc['gate'], dict):
+            return doc['gate']
+        for k in ('moments', 'operations'):
+            if k in doc:
+                return _find_gate_doc(doc[k])
+        return doc
+    if isinstance(doc, list) and doc:
+        return _find_gate_doc(doc[0])
+    return doc
+
+
+def stream_optional_shapes(ctx, mods):
+    """Gates whose document carries a qid shape next to a companion that implies one by itself (the width of a matrix, a count
+    of qubits): every shape of the grid (every seed alike) through every entry, alone / applied to qudits / in a circuit.
+    Property (deciding, judged on the values): the shape and the value come back.  Correspondence: what the reader makes of the
+    field AS FOUND in the document (present or absent) against Codec/OptField.v, and the constructors' own inference."""
+    cirq = mods['cirq']
+    import numpy as np
+    quick = ctx.tier == 'quick'
+    grid = [tuple(s) for s in shape_grid(quick) if Mutator._prod(s) <= 32]
+    entries = shape_field_entries(cirq, ctx.rng)
+    stats = collections.Counter(entries=len(entries), shapes=len(grid))
+    wrows, crows, meta = [], [], []
+    for ename, (kind, build) in entries.items():
+        for sh in grid:
+            try:
+                with warnings.catch_warnings():
+                    warnings.simplefilter('ignore')
+                    g = build(sh)
+                    qids = cirq.LineQid.for_qid_shape(sh)
+                    forms = [('gate', g), ('operation', g.on(*qids)), ('circuit', cirq.Circuit(g.on(*qids)))]
+            except Exception:      # noqa
+                stats['rejected_by_constructor'] += 1
+                continue
+            pow2 = Mutator._prod(sh) & (Mutator._prod(sh) - 1) == 0
+            tells = kind == 'width' and pow2 and any(d != 2 for d in sh)
+            for form, x in forms:
+                text, r, err = None, None, None
+                try:
+                    text = cirq.to_json(x)
+                    y = cirq.read_json(json_text=text)
+                    r = tuple(cirq.qid_shape(y))
+                    same = _safe_eq(y, x) and _safe_eq(x, y)
+                except Exception as e:      # noqa
+                    err, same = f'{type(e).__name__}: {e}'[:200], False
+                ctx.count('optional_shapes', f'{ename}|{sh}|{form}', tells or any(d != 2 for d in sh),
+                          sample=dict(entry=ename, qid_shape=list(sh), form=form))
+                gd = _find_gate_doc(json.loads(text)) if text is not None else {}
+                o = gd.get('qid_shape')
+                stats['documents_with_the_field' if o is not None else 'documents_without_the_field'] += 1
+                if err is not None or r != sh or not same:
+                    got = f'reading the document back raises {err}' if err else (
+                        f'read back with qid_shape {r}' if r != sh else 'the shape comes back but the value read is not == the one written')
+                    ctx.violation(f'optfield:{ename.split("(")[0]}:qid_shape',
+                                  f'{ename} with qid_shape={sh} ({form}): the document {"holds qid_shape " + str(o) if o is not None else "has no qid_shape field"}; '
+                                  f'{got}; x = {_short_repr(x)}'[:700],
+                                  dict(kind='optshape', entry=ename, shape=list(sh), form=form))
+                if form != 'gate' or err is not None:
+                    continue
+                if kind == 'width':
+                    wrows.append((len(gd.get('matrix', [])), sh, o, r))
+                    meta.append(('w', ename, sh, tells))
+                else:
+                    c = gd.get('num_qubits', kind[1])
+                    if c is None:
+                        c = len(o) if o is not None else 0
+                    crows.append((int(c), sh, o, r))
+    # the constructors' own inference
+    irows, nrows = [], []
+    for w in range(0, 41 if quick else 130):
+        try:
+            irows.append((w, tuple(cirq.qid_shape(cirq.MatrixGate(np.eye(w))))))
+        except ValueError:
+            irows.append((w, None))
+    for n in range(1, 7):
+        for mk in (lambda n: cirq.IdentityGate(n), lambda n: cirq.MeasurementGate(n, key='m'), lambda n: cirq.WaitGate(cirq.Duration(nanos=5), num_qubits=n)):
+            nrows.append((n, tuple(cirq.qid_shape(mk(n)))))
+    text = CASES_HEADER_OPT
+    text += 'Definition wcases : list (N * shape * option shape * shape) := [\n' + ';\n'.join(
+        f'({w}, {g_shape(sh)}, {g_opt_shape(o)}, {g_shape(r)})' for w, sh, o, r in wrows) + '].\n'
+    text += 'Eval vm_compute in failing (fun c => match c with (w, s, o, r) => opt_eqb shape_eqb (shape_read w o) (Some r) end) wcases.\n'
+    text += ('Eval vm_compute in failing (fun c => match c with (w, s, o, r) => opt_eqb shape_eqb (shape_roundtrip omit_if_inferable w s) (Some s) '
+             'end) wcases.\n')
+    text += ('Eval vm_compute in failing (fun c => match c with (w, s, o, r) => gate_ok w s && opt_eqb shape_eqb (shape_roundtrip omit_never w s) (Some s) '
+             '&& opt_eqb shape_eqb (shape_roundtrip omit_if_equal w s) (Some s) end) wcases.\n')
+    text += 'Definition ccases : list (N * shape * option shape * shape) := [\n' + ';\n'.join(
+        f'({c}, {g_shape(sh)}, {g_opt_shape(o)}, {g_shape(r)})' for c, sh, o, r in crows) + '].\n'
+    text += 'Eval vm_compute in failing (fun c => match c with (n, s, o, r) => opt_eqb shape_eqb (count_read n o) (Some r) end) ccases.\n'
+    text += 'Definition icases : list (N * option shape) := [' + '; '.join(f'({w}, {g_opt_shape(sh)})' for w, sh in irows) + '].\n'
+    text += 'Eval vm_compute in failing (fun c => match c with (w, i) => opt_eqb shape_eqb (infer_shape w) i end) icases.\n'
+    text += 'Definition ncases : list (N * shape) := [' + '; '.join(f'({n}, {g_shape(sh)})' for n, sh in nrows) + '].\n'
+    text += 'Eval vm_compute in failing (fun c => match c with (n, i) => opt_eqb shape_eqb (infer_count n) (Some i) end) ncases.\n'
+    vals = coq.parse_evals(coq.coq_eval(f'c11_optshape_{ctx.seed}', text))
+    assert len(vals) == 6, vals
+    for idx in coq.parse_nat_list(vals[0]):
+        w, sh, o, r = wrows[idx]
+        ctx.mark_broken('correspondence:optional_shape', f'{meta[idx][1]} of width {w} with qid_shape={sh}: the document has qid_shape = {o}, the value read back '
+                        f'has shape {r}; the model reader (the field if present, else what the width implies) disagrees')
+    told = set(coq.parse_nat_list(vals[1]))
+    if told != {i for i, m in enumerate(meta) if m[3]}:
+        ctx.mark_broken('harness:optional_shape', 'the cases on which the model tells omit-if-inferable from the sound rules are not the ones the generator flags')
+    stats['grid_cases_that_tell_the_refuted_rule_apart'] = len(told)
+    if not told:
+        ctx.mark_broken('harness:optional_shape', 'no case of the grid distinguishes the refuted writer rule')
+    for idx in coq.parse_nat_list(vals[2]):
+        ctx.mark_broken('harness:optional_shape', f'case {wrows[idx][:2]}: the width is not the product of the shape, or a sound rule fails in the model')
+    for idx in coq.parse_nat_list(vals[3]):
+        c, sh, o, r = crows[idx]
+        ctx.mark_broken('correspondence:optional_shape', f'gate over a count of {c} qubits with qid_shape={sh}: the document has qid_shape = {o}, the value read back '
+                        f'has shape {r}; the model reader (the field if present, else (2,) * count) disagrees')
+    for idx in coq.parse_nat_list(vals[4]):
+        ctx.mark_broken('correspondence:optional_shape', f'cirq.MatrixGate(np.eye({irows[idx][0]})) infers {irows[idx][1]}; the model infers otherwise')
+    for idx in coq.parse_nat_list(vals[5]):
+        ctx.mark_broken('correspondence:optional_shape', f'a gate over {nrows[idx][0]} qubits has shape {nrows[idx][1]}; the model says (2,) * count')
+    for name, rows in (('infer_width', irows), ('infer_count', nrows)):
+        for row in rows:
+            ctx.count('optional_shapes', f'{name}|{row}', True)
+    # the refuted rule's witness on the implementation: the document of MatrixGate(.., qid_shape=(4,)) with the field deleted
+    g = cirq.MatrixGate(np.eye(4), qid_shape=(4,))
+    doc = json.loads(cirq.to_json(g))
+    doc.pop('qid_shape', None)
+    try:
+        back = cirq.read_json(json_text=json.dumps(doc))
+        stats['witness_document_without_the_field'] = f'reads with shape {tuple(cirq.qid_shape(back))}'
+        if tuple(cirq.qid_shape(back)) == (4,):
+            ctx.stale_supporting.append('C11_shape_omitted_if_inferable_refuted: a MatrixGate document of width 4 without qid_shape now reads as one qudit')
+    except Exception as e:      # noqa
+        stats['witness_document_without_the_field'] = f'rejected by the reader ({type(e).__name__})'
+    ctx.cov['optional_shapes'] = dict(stats)
 
 
 # ------------------------------------------------------------------------------------------------ Qid ordering
